@@ -14,8 +14,9 @@
 (*          <<[suffix, dict]>>                                               *)
 (* k = "site"    skool2html.main run on game.skool with ref files; the       *)
 (*          observations are made by an HtmlWriter subclass in init()        *)
-(*     defaults  lines printed by skool2html.py -r for the queried built-in  *)
-(*          sections; auto, dir, cmd, cli: see RefDefs!UserSections          *)
+(*     auto, dir, cmd, cli: see RefDefs!UserSections; the lines printed by   *)
+(*          skool2html.py -r for the queried built-in sections are the same  *)
+(*          for every case (Aux.defaults)                                    *)
 (*     uq   <<[n, has, raw]>>   the user's sections (writer.ref_parser)      *)
 (*     q    <<[n, text, raw, dict]>>  HtmlWriter.get_section(lines,          *)
 (*          trim=False) (judged if text = 1) and HtmlWriter.get_dictionary   *)
@@ -38,12 +39,21 @@
 EXTENDS RefDefs, Json, IOUtils, TLC
 
 Cases == JsonDeserialize(IOEnv.CASES)
+\* the same for every case: [defaults |-> the lines printed by skool2html.py -r for the queried built-in sections]
+Aux == JsonDeserialize(IOEnv.AUX)
+DefaultSecs == ParseFile(<<>>, Aux.defaults, Impl)
 VARIABLES tid, verdict
 
 FnOf(pairs) == [x \in {p[1] : p \in Range(pairs)} |-> (CHOOSE p \in Range(pairs) : p[1] = x)[2]]
 Restrict(f, S) == [x \in DOMAIN f \cap S |-> f[x]]
-First(q) == IF q = <<>> THEN "ok" ELSE q[1]
-Fails(q) == SelectSeq(q, LAMBDA s : s # "ok")
+DriftVerdicts == {"drift:malformed-number", "drift:show-config-before-ini-options", "drift:order", "drift:variant", "drift:auto-order",
+                  "drift:append-replaces-built-in-section"}
+IsDrift(s) == s \in DriftVerdicts
+\* the first hard failure, else the first drift, else "ok"
+First(q) == LET hard == SelectSeq(q, LAMBDA s : s # "ok" /\ ~IsDrift(s))
+                soft == SelectSeq(q, LAMBDA s : s # "ok")
+            IN IF hard # <<>> THEN hard[1] ELSE IF soft # <<>> THEN soft[1] ELSE "ok"
+Fails(q) == q
 SeqOrSet(a, b, strict) == IF strict THEN a = b ELSE Range(a) = Range(b) /\ Len(a) = Len(b)
 
 \* ---- one queried section / family against sections S ----------------------------------------------------
@@ -93,10 +103,19 @@ CfgsClause(gs, V) == First(Fails([i \in 1..Len(gs) |-> CfgClause(gs[i], V)]))
 \* ---- skool2html with ref files ----------------------------------------------------------------------------
 UQClause(q, U) ==
   IF (q.has = 1) # Has(U, q.n) THEN "user-has-section" ELSE IF q.raw # LinesOf(U, q.n) THEN "user-section-lines" ELSE "ok"
-WQClause(q, D, U) ==
-  IF q.text = 1 /\ q.raw # WLines(D, U, q.n) THEN "writer-section-lines"
-  ELSE IF FnOf(q.dict) # WDict(D, U, q.n) THEN "writer-dictionary"
-  ELSE "ok"
+\* "Content may be appended to an existing ref file section defined elsewhere by adding a '+' suffix": when the section
+\* exists only in the built-in ref file and the user's files only ever append to it, HtmlWriter.get_section returns the
+\* appended lines alone.  Both that and built-in + appended lines are accepted; the former is counted (drift).
+PlainSomewhere(c, n) ==
+  \/ \E i \in 1..Len(c.auto) : \E j \in 1..Len(c.auto[i]) : RStrip(c.auto[i][j]) = <<LB>> \o n \o <<RB>>
+  \/ \E i \in 1..Len(c.dir) : \E j \in 1..Len(c.dir[i].lines) : RStrip(c.dir[i].lines[j]) = <<LB>> \o n \o <<RB>>
+  \/ \E i \in 1..Len(c.cli) : SpecOK(c.cli[i]) /\ SpecSection(c.cli[i]) = n
+WQClause(c, q, D, U) ==
+  IF FnOf(q.dict) # WDict(D, U, q.n) THEN "writer-dictionary"
+  ELSE IF q.text = 0 \/ q.raw = WLines(D, U, q.n) THEN
+    (IF q.text = 1 /\ Has(D, q.n) /\ Has(U, q.n) /\ LinesOf(D, q.n) # <<>> /\ ~PlainSomewhere(c, q.n) THEN "drift:append-replaces-built-in-section" ELSE "ok")
+  ELSE IF Has(D, q.n) /\ Has(U, q.n) /\ ~PlainSomewhere(c, q.n) /\ q.raw = LinesOf(D, q.n) \o LinesOf(U, q.n) THEN "ok"
+  ELSE "writer-section-lines"
 WSecs(D, U, p) == LET m == WSections(D, U, p) IN [i \in 1..Len(m) |-> [parts |-> m[i].key, lines |-> m[i].val]]
 WDcts(D, U, p) == LET m == WDicts(D, U, p) IN [i \in 1..Len(m) |-> [suffix |-> m[i].key, dict |-> m[i].val]]
 WFClause(f, D, U, strict) ==
@@ -105,9 +124,9 @@ WFClause(f, D, U, strict) ==
   ELSE "ok"
 SiteClause(c, V, auto, strict) ==
   IF ~AllNamed(c.dir, c.cmd) THEN "machinery:cmd-file"
-  ELSE LET D == ParseFiles(<<>>, <<c.defaults>>, V)
+  ELSE LET D == IF V = Impl THEN DefaultSecs ELSE ParseFile(<<>>, Aux.defaults, V)
            U == UserSections(auto, c.dir, c.cmd, c.cli, V)
-       IN First(Fails([i \in 1..Len(c.uq) |-> UQClause(c.uq[i], U)] \o [i \in 1..Len(c.q) |-> WQClause(c.q[i], D, U)]
+       IN First(Fails([i \in 1..Len(c.uq) |-> UQClause(c.uq[i], U)] \o [i \in 1..Len(c.q) |-> WQClause(c, c.q[i], D, U)]
                       \o [i \in 1..Len(c.fam) |-> WFClause(c.fam[i], D, U, strict)] \o <<CfgsClause(c.cfg, V)>>))
 Perms(n) == {f \in [1..n -> 1..n] : \A i, j \in 1..n : f[i] = f[j] => i = j}
 Permuted(q, f) == [i \in 1..Len(q) |-> q[f[i]]]
@@ -120,7 +139,6 @@ RefFileClause(c) ==
   THEN "ref-sections"
   ELSE "ok"
 
-IsDrift(s) == s \in {"drift:malformed-number", "drift:show-config-before-ini-options"}
 Judge(c) ==
   IF c.k = "parse" THEN
     LET r == ParseClause(c, Impl, TRUE) IN
@@ -146,6 +164,6 @@ Judge(c) ==
 Init == tid \in 1..Len(Cases) /\ verdict = "pending"
 Next == /\ verdict = "pending" /\ verdict' = Judge(Cases[tid]) /\ UNCHANGED tid
         /\ (IF verdict' = "ok" THEN TRUE
-            ELSE IF StartsWith(verdict', "drift") THEN PrintT(<<"DRIFT", tid, verdict'>>)
+            ELSE IF verdict' \in DriftVerdicts THEN PrintT(<<"DRIFT", tid, verdict'>>)
             ELSE PrintT(<<"FAIL", tid, verdict'>>))
 =============================================================================
